@@ -659,6 +659,15 @@ def run(ctx: Ctx) -> int:
     notflag = next((s.targets[0].id for s in _assigns(fif) if isinstance(s.value, ast.Call) and call_leaf(s.value) == "ast_is_not"), None)
     ctx.need(notflag, "flag from ast_is_not(node.test) in visit_If")
     cond = next((s.targets[0].id for s in _assigns(fif) if isinstance(s.value, ast.Call) and call_leaf(s.value) == "bool"), None)
+    if cond is None:
+        # the variable by role: the test of `node.body if <cond> else node.orelse`
+        sel0 = [n for n in ast.walk(fif) if isinstance(n, ast.IfExp) and isinstance(n.body, ast.Attribute) and isinstance(n.orelse, ast.Attribute) and {n.body.attr, n.orelse.attr} == {"body", "orelse"}]
+        if len(sel0) == 1 and isinstance(strip_not(sel0[0].test)[0], ast.Name):
+            cname = strip_not(sel0[0].test)[0].id
+            first = next((s for s in _assigns(fif, cname) if not (isinstance(s.value, ast.UnaryOp) and isinstance(s.value.op, ast.Not))), None)
+            if first is not None and isinstance(first.value, ast.Compare) and len(first.value.ops) == 1 and isinstance(first.value.ops[0], (ast.Is, ast.Eq)) and isinstance(first.value.comparators[0], ast.Constant) and first.value.comparators[0].value is True:
+                ctx.oblige("C13.h", False, first, f"`{ast.unparse(first)}` folds the module-level constant by comparing it with True instead of taking its truth value: for `if BACKEND: X(**kwargs) else: Y(**kwargs)` with BACKEND = 'torch' the parameters of the dead branch are offered and those of the live branch are rejected", fn=fif, construct="truth value of the constant")
+                cond = cname
     ctx.need(cond, "condition = bool(<global value>) in visit_If")
     neg = [s for s in _assigns(fif, cond) if isinstance(s.value, ast.UnaryOp) and isinstance(s.value.op, ast.Not) and _is_name(s.value.operand, cond)]
     okn = len(neg) == 1 and [(ast.unparse(t), p) for t, p in guard_atoms(neg[0]) if _is_name(t, notflag)] == [(notflag, True)]
